@@ -74,21 +74,22 @@ def regen(ctx):
 
 def coq_check_flags(ctx, n):
     """check_rule / in_scope of every table row, evaluated by Coq"""
-    out = ctx.eval_terms('flags', ['Model.RvRules', 'Gen.Tab_rv_patterns', 'Proofs.C05_rules'],
-                         ['map (fun r => (check_rule r, match tree_sem (r_tree r) with Some _ => true | None => false end)) rv_rules'])
+    out = ctx.eval_terms('flags', ['Model.RvRules', 'Gen.Tab_rv_patterns', 'Proofs.C05_rules', 'Proofs.C05_mem'],
+                         ['map (fun r => ((check_rule r, match tree_sem (r_tree r) with Some _ => true | None => false end), '
+                          '(check_rule2 r, in_scope2 r))) rv_rules'])
     toks = re.findall(r'VBool (true|false)', out)
-    if len(toks) != 2 * n:
+    if len(toks) != 4 * n:
         toks = re.findall(r'\b(true|false)\b', out)
-    if len(toks) != 2 * n:
+    if len(toks) != 4 * n:
         ctx.failed_stages.append(('flags', 'cannot read check_rule flags from coqc (%d tokens for %d rules)' % (len(toks), n)))
         return None
-    return [(toks[2 * i] == 'true', toks[2 * i + 1] == 'true') for i in range(n)]
+    return [tuple(toks[4 * i + k] == 'true' for k in range(4)) for i in range(n)]
 
 
-def write_bad(ctx, rows, flags, wit):
+def write_bad(ctx, rows, flags, wit, cjwit=None):
     bad, undecided = [], []
     for r in rows:
-        ck, scope = flags[r['idx']]
+        ck, scope = flags[r['idx']][:2]
         if scope and not ck:
             w = wit.get(r['idx'])
             if w is None:
@@ -102,8 +103,20 @@ def write_bad(ctx, rows, flags, wit):
             'From PV Require Import Model.RvRules.\nFrom Coq Require Import ZArith List.\nImport ListNotations.\nOpen Scope Z_scope.\n'
             'Definition rv_rules_bad : list (nat * env * list (Z * Z)) := [\n  %s].\n'
             'Definition rv_rules_undecided : list nat := [%s]%%nat.\n' % (';\n  '.join(bad), '; '.join(map(str, undecided))))
+    cjbad, und2 = [], []
+    for r in rows:
+        ck2, scope2 = flags[r['idx']][2:]
+        if scope2 and not ck2:
+            w = cjwit.get(r['idx']) if cjwit else None
+            if w is None:
+                und2.append(r['idx'])
+            else:
+                cjbad.append('(%d%%nat, %d, %d)' % (r['idx'], w[0], w[1]))
+    text += ('(* conditional-jump rules that fail check_cjmp, with register contents on which branch and IR comparison differ *)\n'
+             'Definition rv_cj_bad : list (nat * Z * Z) := [%s].\n'
+             'Definition rv_rules2_undecided : list nat := [%s]%%nat.\n' % ('; '.join(cjbad), '; '.join(map(str, und2))))
     ctx.write_gen('Tab_rv_bad', text)
-    return undecided
+    return undecided, und2
 
 
 def li_correspondence(ctx):
@@ -132,6 +145,61 @@ def li_correspondence(ctx):
     ctx.cov['stages']['li_correspondence'] = len(cases)
     if bad:
         ctx.failed_stages.append(('correspondence', 'li_expand differs from Li.render on %r' % (vals[bad[0]],)))
+
+
+def ins_item(ins):
+    ops = []
+    for fa in type(ins).syntax.formal_arguments:
+        x = getattr(ins, fa._name)
+        ops.append(x.num if hasattr(x, 'num') else x)
+    return (type(ins).syntax.syntax[0], ops)
+
+
+def frame_correspondence(ctx):
+    """Model/RvFrame.v (determine_arg_locations, prologue_items, epilogue_items) vs the real RiscvArch methods"""
+    from ppci import ir
+    from ppci.api import get_arch
+    from ppci.arch.stack import Frame, StackLocation
+    from ppci.arch.encoding import Instruction
+    from ppci.arch.generic_instructions import ArtificialInstruction
+    arch = get_arch('riscv')
+    rng = ctx.rng
+    scal = [ir.i8, ir.i16, ir.i32, ir.u8, ir.u16, ir.u32, ir.ptr]
+    cases = []
+    n_sig = 60 if ctx.quick() else 600
+    for _ in range(n_sig):
+        tys = []
+        for _k in range(rng.randrange(0, 12)):
+            tys.append(ir.BlobDataTyp(rng.choice([1, 3, 4, 8, 12, 20]), 4) if rng.random() < 0.15 else rng.choice(scal))
+        real = []
+        for l in arch.determine_arg_locations(tys):
+            real.append((1, l.offset, l.size) if isinstance(l, StackLocation) else (0, l.num, 0))
+        margs = '; '.join('(%s, %d)' % ('true' if t.is_blob else 'false', t.size if t.is_blob else arch.info.get_size(t)) for t in tys)
+        cases.append(('map (fun l => match l with AReg r => (0, r, 0) | AStack o z => (1, o, z) end) (determine_arg_locations [%s])' % margs, real))
+    callee = list(arch.callee_save)
+    n_fr = 40 if ctx.quick() else 400
+    for _ in range(n_fr):
+        fr = Frame('f', fp_location=arch.fp_location)
+        fr.stacksize = rng.choice([0, 4, 8, 12, 16, 20, 100, 1000, rng.randrange(0, 1900)])
+        saved = [r for r in callee if rng.random() < 0.4]
+        for r in saved:
+            fr.used_regs.add(r)
+        extras = rng.choice([0, 0, 4, 8, 16, 24, 100])
+        if extras:
+            fr.add_out_call(extras)
+            if rng.random() < 0.5:
+                fr.add_out_call(rng.randrange(0, extras + 1))
+
+        def items(gen):
+            return [ins_item(i) for i in gen if isinstance(i, Instruction) and not isinstance(i, ArtificialInstruction)
+                    and type(i).__module__.startswith('ppci.arch.riscv')]
+        margs = '%d %s %d' % (fr.stacksize, zl([r.num for r in saved]), extras)
+        cases.append(('prologue_items %s' % margs, items(arch.gen_prologue(fr))))
+        cases.append(('epilogue_items %s' % margs, items(arch.gen_epilogue(fr))))
+    bad = ctx.run_cases('frame', ['Model.RvFrame'], cases)
+    ctx.cov['stages']['frame_correspondence'] = {'signatures': n_sig, 'frames': n_fr}
+    if bad:
+        ctx.failed_stages.append(('correspondence', 'Model/RvFrame.v differs from the real RiscvArch on case %s' % cases[bad[0]][0][:120]))
 
 
 def selection_correspondence(ctx, R, rows):
@@ -211,6 +279,50 @@ def rule_search(ctx, R, rows, flags):
     return wit
 
 
+CJ_PY = {'<': lambda a, b: a < b, '>': lambda a, b: a > b, '==': lambda a, b: a == b, '!=': lambda a, b: a != b,
+         '>=': lambda a, b: a >= b, '<=': lambda a, b: a <= b}
+
+
+def cj_search(ctx, R, rows):
+    """conditional-jump rules: register contents on which the emitted branch disagrees with the IR comparison"""
+    from props import c08
+    out = {}
+    pool = R.REG_POOL
+    for r in rows:
+        if not r.get('cjop') or r['error'] or len(r['body']) != 2:
+            continue
+        op, ty, _ = R.split_name(r['tree'].name)
+        if ty not in R.BITS:
+            continue
+        bits, sg = R.BITS[ty]
+        exp = c08.rv_expect(r['body'][0][0], 3)
+        if exp is None or exp[0] not in RV.BR:
+            continue
+        for _ in range(300):
+            a, b = ctx.rng.choice(pool), ctx.rng.choice(pool)
+            x, y = c08.apply_view(exp[1], [a, b, 0])[:2]
+            taken = RV.BR[exp[0]](x, y)
+            want = CJ_PY[r['cjop']](R.wrap(bits, sg, a), R.wrap(bits, sg, b))
+            if taken != want:
+                out[r['idx']] = (a, b, taken, want)
+                break
+    return out
+
+
+def report_cj(ctx, rows, flags, cjwit):
+    for idx, (a, b, taken, want) in sorted(cjwit.items()):
+        r = rows[idx]
+        if flags and flags[idx][2]:
+            ctx.failed_stages.append(('oracle', 'rule %s is proved sound but the Python twin refutes it' % r['text']))
+            continue
+        ctx.violation({'fn': 'rule', 'family': 'subword_shr_div_cmp', 'rule': r['text'], 'key': 'rule:' + r['text'],
+                       'pattern_function': r['fn'], 'args': [a, b],
+                       'what': 'rule %s emits %s: with registers %d, %d the branch is %staken but the IR comparison of the '
+                               'represented values is %s' % (r['text'], r['body'][0][0], a, b, '' if taken else 'not ', want),
+                       'expected': want, 'actual': taken,
+                       'how_to_replay': 'see coq/Gen/Tab_rv_bad.v rv_cj_bad (verified by c05_rv_cjmp_refuted)'})
+
+
 def report_rules(ctx, rows, flags, wit):
     for idx, w in sorted(wit.items()):
         r = rows[idx]
@@ -227,6 +339,42 @@ def report_rules(ctx, rows, flags, wit):
                        'how_to_replay': 'PYTHONPATH=/repo:/verif/tools python -c "import random; from props import c05_rules as R, c08; '
                                         'import rv32_py as RV; r=[x for x in R.export_rules() if x[\'idx\']==%d][0]; '
                                         'print(R.find_witness(r, random.Random(0), RV, c08.rv_expect, c08.apply_view))"' % idx})
+
+
+def ldr_add_probe(ctx):
+    """LDRI32(ADDI32(reg, CONSTI32)) has no condition: a load from p + c with |c| >= 2048 must still compile"""
+    from ppci import ir
+    from ppci.irutils import verify_module
+    from props import c05_e2e as E
+    for off in (8, 2047, 2048, 5000, -2048, -2049, -5000):
+        m = ir.Module('m')
+        f = ir.Function('f', ir.Binding.GLOBAL, ir.i32)
+        m.add_function(f)
+        p = ir.Parameter('p', ir.ptr)
+        f.add_parameter(p)
+        e = ir.Block('entry')
+        f.add_block(e)
+        f.entry = e
+        seq = [ir.Cast(p, 'pi', ir.i32), ir.Const(off, 'c', ir.i32)]
+        seq.append(ir.Binop(seq[0], '+', seq[1], 'a', ir.i32))
+        seq.append(ir.Cast(seq[2], 'ap', ir.ptr))
+        seq.append(ir.Load(seq[3], 'l', ir.i32))
+        for i in seq:
+            e.add_instruction(i)
+        e.add_instruction(ir.Return(seq[4]))
+        verify_module(m)
+        img = E.compile_module(m, 'f')
+        ctx.cov['evaluations'] += 1
+        if getattr(img, 'error', None):
+            ctx.violation({'fn': 'rule', 'family': 'ldr_add_offset_unchecked', 'rule': 'LDRI32(ADDI32(reg, CONSTI32))',
+                           'key': 'rule:LDRI32(ADDI32(reg, CONSTI32))', 'args': [off], 'ir': E.module_text(m),
+                           'what': 'verifier-clean IR "load i32 from p + %d" does not compile for riscv: %s (the rule has no '
+                                   'condition on the 12-bit load offset)' % (off, str(img.error)[:120]),
+                           'expected': 'compiles', 'actual': str(img.error)[:200],
+                           'how_to_replay': 'PYTHONPATH=/repo:/verif/tools python -c "from props import c05_e2e as E; '
+                                            'from ppci.irutils import read_module; import io, json; r=json.load(open(\'<this file>\')); '
+                                            'print(E.compile_module(read_module(io.StringIO(r[\'ir\'])), \'f\').error)"'})
+            return
 
 
 def e2e_search(ctx):
@@ -280,28 +428,39 @@ def run(ctx):
         'conditions': sorted({str(r['cond'][0]) for r in rows})}
     flags = None
     wit = {}
-    ok, _ = ctx.build(['Gen/Tab_rv_patterns.vo', 'Proofs/C05_rules.vo'])
+    ok, _ = ctx.build(['Gen/Tab_rv_patterns.vo', 'Proofs/C05_rules.vo', 'Proofs/C05_mem.vo'])
     if ok:
         flags = coq_check_flags(ctx, len(rows))
     wit = rule_search(ctx, R, rows, flags)
+    cjwit = cj_search(ctx, R, rows)
     if flags:
-        und = write_bad(ctx, rows, flags, wit)
+        und, und2 = write_bad(ctx, rows, flags, wit, cjwit)
+        ctx.cov['stages']['rules_mem_control'] = {
+            'proved_sound': [rows[i]['text'] for i in range(len(rows)) if flags[i][2]],
+            'refuted': [rows[i]['text'] for i in range(len(rows)) if flags[i][3] and not flags[i][2] and i in cjwit],
+            'undecided': [rows[i]['text'] for i in und2]}
         ctx.cov['stages']['rules'] = {
             'proved_sound': [rows[i]['text'] for i in range(len(rows)) if flags[i][0]],
             'in_scope_refuted': [rows[i]['text'] for i in range(len(rows)) if flags[i][1] and not flags[i][0] and i in wit],
             'in_scope_undecided': [rows[i]['text'] for i in und],
             'tested_only_unsound': [rows[i]['text'] for i in sorted(wit) if not flags[i][1]],
-            'not_covered': sorted({rows[i]['text'] for i in range(len(rows)) if not flags[i][1] and R.row_sem(rows[i]) is None})}
-        ok2, _ = ctx.build(['Proofs/C05_table.vo'])
+            'not_covered': sorted({rows[i]['text'] for i in range(len(rows)) if not flags[i][1] and not flags[i][3] and R.row_sem(rows[i]) is None})}
+        ok2, _ = ctx.build(['Proofs/C05_table.vo', 'Proofs/C05_frame.vo'])
         if ok2:
             ctx.check_props('Props/C05.v')
-    if ctx.build(['Model/RvRules.vo', 'Lib/Val.vo'])[0]:
+    if ctx.build(['Model/RvRules.vo', 'Model/RvFrame.vo', 'Lib/Val.vo'])[0]:
         li_correspondence(ctx)
+        try:
+            frame_correspondence(ctx)
+        except Exception as ex:   # noqa: BLE001
+            ctx.failed_stages.append(('correspondence', 'frame correspondence crashed: %r' % (ex,)))
     try:
         selection_correspondence(ctx, R, rows)
     except Exception as ex:   # noqa: BLE001
         ctx.failed_stages.append(('correspondence', 'selection correspondence crashed: %r' % ex))
     report_rules(ctx, rows, flags, wit)
+    report_cj(ctx, rows, flags, cjwit)
+    ldr_add_probe(ctx)
     e2e_search(ctx)
     ctx.cov['exhaustive'] = False
 
@@ -310,6 +469,8 @@ def search(ctx):
     R, rows = export(ctx)
     wit = rule_search(ctx, R, rows, None)
     report_rules(ctx, rows, None, wit)
+    report_cj(ctx, rows, None, cj_search(ctx, R, rows))
+    ldr_add_probe(ctx)
     e2e_search(ctx)
 
 
